@@ -110,6 +110,8 @@ CALLABLES = {
     "Trend": lambda a: _est(vd.Trend(2), a, weights=True),
     "Spline": lambda a: _est(vd.Spline(damping=1e-3), a, weights=True),
     "Spline-force_coords": lambda a: _est(vd.Spline(damping=1e-3, force_coords=(a["e"][:6], a["n"][:6])), a, weights=True),
+    "Spline-force_coords-clone": lambda a: _est(clone(vd.Spline(damping=1e-3, force_coords=(a["e"][:6], a["n"][:6]))), a, weights=True),
+    "VectorSpline2D-force_coords-clone": lambda a: _est(clone(vd.VectorSpline2D(damping=1e-2, force_coords=(a["e"][:6], a["n"][:6]))), a, weights=True, vector=True),
     "VectorSpline2D": lambda a: _est(vd.VectorSpline2D(damping=1e-2), a, weights=True, vector=True),
     "KNeighbors": lambda a: _est(vd.KNeighbors(k=3), a),
     "Linear": lambda a: _est(vd.Linear(), a),
@@ -214,7 +216,7 @@ def history_case(rng):
             return f"[ {o[0]} ]"
         return {"fn": "history", "kind": "history-" + spec[0], "args": [spec, ops, q],
                 "op": f"history {enc_spec(spec)} [ {' '.join(enc_op(o) for o in ops)} ] {C.enc(q)}"}
-    which = rng.choice(["vs2d", "spline", "linear", "cubic", "splinecv-free", "knn-small-first", "chain-reduce", "chain-mean", "chain-reduce-knn"])
+    which = rng.choice(["vs2d", "spline", "spline-fc", "linear", "cubic", "splinecv-free", "knn-small-first", "chain-reduce", "chain-mean", "chain-reduce-knn"])
     sets = [dataset(rng, rng.randint(6, 10), 2 if which == "vs2d" else 1) for _ in range(rng.randint(1, 3))]
     if which == "knn-small-first":          # first fitted on fewer points than neighbours (fit alone is fine), then on a full dataset
         sets = [dataset(rng, rng.randint(1, 3), 1)] + sets
@@ -427,6 +429,13 @@ REJECTS = {
     "KNeighbors.fit-row-vs-column": lambda: vd.KNeighbors().fit((np.arange(4.0).reshape(1, 4), np.arange(4.0).reshape(4, 1)), np.arange(4.0).reshape(1, 4)),
     "Trend.fit-data-shape": lambda: vd.Trend(1).fit((np.arange(4.0), np.arange(4.0)), np.arange(5.0)),
     "Spline.fit-weights-count": lambda: vd.Spline().fit((np.arange(4.0), np.arange(4.0) ** 2), np.arange(4.0), (np.ones(4), np.ones(4))),
+    **{f"{nm}.fit-weights-size": (lambda mk=mk: mk().fit((np.arange(5.0), np.arange(5.0) ** 2 % 3), np.arange(5.0) * 0.5, np.ones(4)))
+       for nm, mk in (("Trend", lambda: vd.Trend(1)), ("Spline", lambda: vd.Spline()), ("KNeighbors", lambda: vd.KNeighbors()),
+                      ("Linear", lambda: vd.Linear()), ("Cubic", lambda: vd.Cubic()), ("Chain-KNeighbors", lambda: vd.Chain([("k", vd.KNeighbors(k=2))])))},
+    **{f"{nm}.fit-weights-count": (lambda mk=mk: mk().fit((np.arange(5.0), np.arange(5.0) ** 2 % 3), np.arange(5.0) * 0.5, (np.ones(5), np.ones(5))))
+       for nm, mk in (("Trend", lambda: vd.Trend(1)), ("KNeighbors", lambda: vd.KNeighbors()), ("Linear", lambda: vd.Linear()), ("Cubic", lambda: vd.Cubic()))},
+    "VectorSpline2D.fit-weights-size": lambda: vd.VectorSpline2D().fit((np.arange(5.0), np.arange(5.0) ** 2 % 3), (np.arange(5.0), np.arange(5.0) * 2),
+                                                                        (np.ones(4), np.ones(4))),
     "VectorSpline2D.fit-one-component": lambda: vd.VectorSpline2D().fit((np.arange(4.0), np.arange(4.0) ** 2), np.arange(4.0)),
     "Vector.fit-not-tuple": lambda: vd.Vector([vd.Trend(1), vd.Trend(1)]).fit((np.arange(4.0), np.arange(4.0) ** 2), np.arange(4.0)),
     "BlockMean-uncertainty-noweights": lambda: vd.BlockMean(spacing=1.0, uncertainty=True).filter((np.arange(4.0), np.arange(4.0)), np.arange(4.0)),
@@ -528,6 +537,8 @@ def _build_real(which, first_coords=None):
         return vd.VectorSpline2D(damping=1e-2, force_coords=None if first_coords is None else tuple(np.array(c) for c in first_coords))
     if which == "spline":
         return vd.Spline(damping=1e-3)
+    if which == "spline-fc":      # force positions given by the user (arrays as hyper-parameters: kept as given, cloned like any other)
+        return vd.Spline(damping=1e-3, force_coords=(np.array([0.5, 3.0, 7.5, 9.0, 2.0, 6.0]), np.array([-4.0, 1.5, -2.0, 4.0, 3.5, -0.5])))
     if which == "linear":
         return vd.Linear()
     if which == "cubic":
